@@ -511,7 +511,7 @@ func TestC06(t *testing.T) {
 		}
 		h.Exhaustive(fmt.Sprintf("1..%d simultaneously held requests x every release order x {no extra, flush of own tag, of an idle tag, of a held request, an unrelated request}", maxK))
 	}
-	rapidCases(h, "batches", env.PerShard(env.Pick(2400, 40000)), func(rt *rapid.T) batchCase {
+	rapidCases(h, "batches", env.PerShard(env.Pick(2400, 200000)), func(rt *rapid.T) batchCase {
 		return genBatchCase(rt, env.Pick(6, 24))
 	}, func(c batchCase) *fail {
 		st := &batchStats{}
